@@ -320,7 +320,8 @@ func drawScenario(rng *rand.Rand, big bool) joeScenario {
 			}
 		}
 		if rng.Intn(12) == 0 {
-			s.last = "x"
+			// never issued: unparsable, 2^64-1, 2^63, or a number past everything this scenario publishes
+			s.last = pick(rng, "x", "x", "h", "g", fmt.Sprintf("n%d", np+rng.Intn(3)))
 		}
 		if rng.Intn(3) == 0 {
 			s.failAt = 1 + rng.Intn(6)
@@ -360,6 +361,17 @@ func drawScenario(rng *rand.Rand, big bool) joeScenario {
 		sc.shuts = append(sc.shuts, tr)
 	}
 	sc.jitter = pick(rng, 0, 10, 30, 60, 90)
+	// a burst of Shutdown calls released together from a spin barrier (trigger "b…"): the only way to get
+	// several callers inside Shutdown's first few instructions at once
+	if rng.Intn(6) == 0 {
+		tr := "bend"
+		if np > 0 && rng.Intn(2) == 0 {
+			tr = fmt.Sprintf("bp%d", rng.Intn(np))
+		}
+		for k, nb := 0, 2+rng.Intn(7); k < nb; k++ {
+			sc.shuts = append(sc.shuts, tr)
+		}
+	}
 	return sc
 }
 
@@ -471,6 +483,8 @@ func runJoe(args []string) string {
 
 	sse.VerifHook = func(point string, a, b any) {
 		switch point {
+		case "shut.enter":
+			return // nothing to record, and no lock taken: burst callers stay together
 		case "sub.enter":
 			t.mu.Lock()
 			t.doneToSub[chanKey(b)] = a.(*joeWriter).idx
@@ -579,7 +593,7 @@ func runJoe(args []string) string {
 	}
 	allPubs := make(chan struct{})
 	waitTrigger := func(tr string) {
-		tr = strings.TrimSuffix(tr, "!")
+		tr = strings.TrimPrefix(strings.TrimSuffix(tr, "!"), "b")
 		switch {
 		case tr == "0" || tr == "start" || tr == "-":
 		case tr == "end":
@@ -607,6 +621,10 @@ func runJoe(args []string) string {
 		switch {
 		case s.last == "x":
 			last = sse.ID("never-issued")
+		case s.last == "h":
+			last = sse.ID("18446744073709551615")
+		case s.last == "g":
+			last = sse.ID("9223372036854775808")
 		case s.last[0] == 'n':
 			k := atoi(s.last[1:])
 			if (parts[0] == "finite" || parts[0] == "valid") && sc.auto {
@@ -678,6 +696,8 @@ func runJoe(args []string) string {
 	go func() { pwg.Wait(); close(allPubs) }()
 
 	// shutdowns
+	var burstWaiting atomic.Int32
+	var burstSize int32
 	shutdown := func(k int, tr string) {
 		defer wg.Done()
 		waitTrigger(tr)
@@ -693,10 +713,20 @@ func runJoe(args []string) string {
 		if strings.HasSuffix(tr, "!") {
 			cancel()
 		}
+		if strings.HasPrefix(tr, "b") {
+			burstWaiting.Add(1)
+			for burstWaiting.Load() < burstSize {
+			}
+		}
 		err := joe.Shutdown(ctx)
 		t.mu.Lock()
 		t.add(fmt.Sprintf("hR%d:%s", k, errName(err, k)))
 		t.mu.Unlock()
+	}
+	for _, tr := range sc.shuts {
+		if strings.HasPrefix(tr, "b") {
+			burstSize++
+		}
 	}
 	for k, tr := range sc.shuts {
 		wg.Add(1)
